@@ -441,32 +441,33 @@ def g_godambe(s, P, light=True):
     multinom = s.chance(0.5)
     f = {'$fn': 'model', 'id': 'linear', 'args': [k, seed, multinom]}
     p0 = [s.choice([0.5, 1.0, 2.0]) for _ in range(k)]
-    model = P.add('model_eval', f, p0, ns, [10])
+    pts = s.choice([[10], [10], [12]])
+    model = P.add('model_eval', f, p0, ns, pts)
     data = P.add('S.scale', model, s.choice([1.0, 3.0])) if s.chance(0.3) else P.add('mk_spectrum', s.randint(0, 3), [n + 1 for n in ns], 0.0, False, None, 8.0)
     boots = [P.add('mk_spectrum', 10 + b, [n + 1 for n in ns], 0.0, False, None, 8.0) for b in range(s.choice([3, 4, 5]))]
     eps = s.choice([0.01, 0.01, 0.001])
     for _ in range(s.randint(1, 3)):
         r = s.random()
         if r < 0.25:
-            P.add('G.FIM_uncert', f, [10], p0, data, **dict(multinom=multinom, eps=eps, log=s.chance(0.3)))
+            P.add('G.FIM_uncert', f, pts, p0, data, **dict(multinom=multinom, eps=eps, log=s.chance(0.3)))
         elif r < 0.5:
-            P.add('G.GIM_uncert', f, [10], boots, p0, data, **dict(multinom=multinom, eps=eps, log=s.chance(0.3)))
+            P.add('G.GIM_uncert', f, pts, boots, p0, data, **dict(multinom=multinom, eps=eps, log=s.chance(0.3)))
         elif r < 0.7 and k >= 2:
             nested = sorted(s.sample(list(range(k)), s.randint(1, k - 1)))
             p0n = list(p0)
             for i in nested:
                 p0n[i] = s.choice([0, 0, 1.0])
-            P.add('G.LRT_adjust', f, [10], boots, p0n, data, nested, **dict(multinom=multinom, eps=eps))
+            P.add('G.LRT_adjust', f, pts, boots, p0n, data, nested, **dict(multinom=multinom, eps=eps))
         elif r < 0.85 and k >= 2:
             nested = [s.randrange(k)]
             p0n = list(p0)
             p0n[nested[0]] = s.choice([0, 1.0])
-            P.add('G.score_stat', f, [10], boots, p0n, data, nested, **dict(multinom=multinom, eps=eps))
+            P.add('G.score_stat', f, pts, boots, p0n, data, nested, **dict(multinom=multinom, eps=eps))
         elif k >= 2:
             nested = [s.randrange(k)]
             p0n = list(p0)
             p0n[nested[0]] = s.choice([0, 1.0])
-            P.add('G.Wald_stat', f, [10], boots, p0n, data, nested, p0, **dict(multinom=multinom, eps=eps))
+            P.add('G.Wald_stat', f, pts, boots, p0n, data, nested, p0, **dict(multinom=multinom, eps=eps))
         else:
             P.add('G.sum_chi2_ppf', s.choice([0.5, [0.0, 1.0, 2.5]]), s.choice([[0, 1], [0.5, 0.5], [0.25, 0.5, 0.25]]))
     return P
